@@ -11,6 +11,7 @@ import Model.Proto.Push
 import Model.Proto.Pull
 import Model.Proto.Rep
 import Model.Proto.Mesh
+import Model.Proto.Surveyor
 import Generated.Facts
 open Model Model.Proto
 namespace Driver.Machines
@@ -36,6 +37,7 @@ structure State where
   pull : List Pull.State := [Pull.init]
   rep : List Rep.State := [Rep.init .rep Generated.hop_rep]
   mesh : List Mesh.State := [Mesh.init .bus Generated.hop_xstar_drop]
+  surv : List Surveyor.State := [Surveyor.init]
   stuck : Bool := false      -- after a disagreement the scenario is abandoned until the next `new`
 
 /-- returns (new state, agrees?, expected rendering, branch) or none for an unknown tag -/
@@ -48,6 +50,7 @@ def step (s : State) (tag : String) (args : List String) (o : String) : Option (
     | "m.pair" => some ({ s with pair := [Pair.init], stuck := false }, true, "-", "new")
     | "m.push" => some ({ s with push := [Push.init], stuck := false }, true, "-", "new")
     | "m.pull" => some ({ s with pull := [Pull.init], stuck := false }, true, "-", "new")
+    | "m.surv" => some ({ s with surv := [Surveyor.init], stuck := false }, true, "-", "new")
     | "m.mesh" =>
       let f := match args.getD 1 "" with
         | "bus" => Mesh.Flavor.bus
@@ -86,6 +89,9 @@ def step (s : State) (tag : String) (args : List String) (o : String) : Option (
   | "m.mesh" =>
     let (cs, exp) := advance s.mesh Mesh.step args o
     if cs.isEmpty then some ({ s with stuck := true }, false, exp, opName) else some ({ s with mesh := cs }, true, o, opName)
+  | "m.surv" =>
+    let (cs, exp) := advance s.surv Surveyor.step args o
+    if cs.isEmpty then some ({ s with stuck := true }, false, exp, opName) else some ({ s with surv := cs }, true, o, opName)
   | _ => none
 
 end Driver.Machines
